@@ -33,6 +33,13 @@ void harness(void) { VR_CALL(RULE) }
 void harness(void) { VR_CALL(KSI_VerificationRule_AggregationChainInputHashAlgorithmVerification) VR_REACH_FAIL(KSI_VER_ERR_INT_13, "FAIL INT-13")
 	if (res == KSI_OK && result->resultCode == KSI_VER_RES_OK && vr_alg(vr_signed_hash(&g_vr_sig)) == 0) REACH("SHA-1 accepted before its deprecation date"); }
 #endif
+#ifdef H_int17
+void harness(void) { VR_CALL(KSI_VerificationRule_Rfc3161RecordOutputHashAlgorithmVerification) VR_REACH_FAIL(KSI_VER_ERR_INT_17, "FAIL INT-17") }
+#endif
+#ifdef H_int14
+void harness(void) { VR_CALL(KSI_VerificationRule_Rfc3161RecordHashAlgorithmVerification) VR_REACH_FAIL(KSI_VER_ERR_INT_14, "FAIL INT-14")
+	if (res == KSI_OK && result->resultCode == KSI_VER_RES_FAIL && spec_hashalg_status_at((long long)g_vr_int[VR_I_RFC_SIGALG].value, vr_time_ll(g_vr_int[VR_I_RFC_SIGALG].value)) == 0) REACH("FAIL INT-14 because of the TST info algorithm alone"); }
+#endif
 #ifdef H_int03
 void harness(void) { VR_CALL(KSI_VerificationRule_CalendarHashChainInputHashVerification) VR_REACH_FAIL(KSI_VER_ERR_INT_3, "FAIL INT-03")
 	if (res == KSI_OK && result->resultCode == KSI_VER_RES_OK && g_vr_temp.aggregationOutputHash == &g_vr_h[VR_H_NEW2]) REACH("OK with a root computed by this rule"); }
